@@ -192,3 +192,924 @@ theorem mrefract_odd (n1 n2 M N ny nz : ℝ) :
 example : (0:ℝ) < 50 ∧ (0:ℝ) < 1 + (-0.5) ∧ (0:ℝ) < 1 ∧ (0:ℝ) < 1.5 ∧ (-10:ℝ) ≤ 0 := by norm_num
 
 end C05
+
+/-! ## Extension: every conic / plane / mirror surface, both directions of travel, whole lens
+
+Everything below is about the axial seed ray `y = 0 + ε y₁`, `z = z₀`, `M = 0 + ε m₁`,
+`N = s` with `s = ±1` the direction of travel (`s = -1` after an odd number of mirrors). -/
+namespace C05
+open Model
+set_option linter.unusedSimpArgs false
+set_option linter.unnecessarySeqFocus false
+
+/- the model's scoped `Num` notation, on `Dual` only (opening the scope would also capture the
+literals and `/` of ℝ in the statements) -/
+local infixl:65 " +ᵈ " => @HAdd.hAdd Dual Dual Dual (@instHAdd Dual Num.instAdd)
+local infixl:65 " -ᵈ " => @HSub.hSub Dual Dual Dual (@instHSub Dual Num.instSub)
+local infixl:70 " *ᵈ " => @HMul.hMul Dual Dual Dual (@instHMul Dual Num.instMul)
+local infixl:70 " /ᵈ " => @HDiv.hDiv Dual Dual Dual (@instHDiv Dual Num.instDiv)
+local prefix:75 "-ᵈ " => @Neg.neg Dual Num.instNeg
+local notation "twoᵈ" => @OfNat.ofNat Dual 2 Num.inst2
+
+/-! ### the root selection of `selectRoot` over jets -/
+
+theorem selectRoot_linear (a b c z N : Dual) (ha : a.v = 0) : selectRoot a b c z N = -ᵈ c /ᵈ b := by
+  unfold selectRoot
+  simp only []
+  rw [if_pos]
+  rw [NumDual.isZero_eq]; exact ha
+theorem maskNeg_keep (t w : Dual) (h : ¬ t.v < 0) : maskNeg t w = t := by
+  unfold maskNeg
+  rw [if_neg]
+  rw [NumDual.lt_eq]; exact h
+theorem selectRoot_first (a b c z N : Dual) (ha : a.v ≠ 0)
+    (h1 : ¬ ((-ᵈ b +ᵈ Num.sqrt (b *ᵈ b -ᵈ Num.ofRat 4 1 *ᵈ a *ᵈ c)) /ᵈ (twoᵈ *ᵈ a)).v < 0)
+    (hz : (z +ᵈ ((-ᵈ b +ᵈ Num.sqrt (b *ᵈ b -ᵈ Num.ofRat 4 1 *ᵈ a *ᵈ c)) /ᵈ (twoᵈ *ᵈ a)) *ᵈ N).v = 0) :
+    selectRoot a b c z N = (-ᵈ b +ᵈ Num.sqrt (b *ᵈ b -ᵈ Num.ofRat 4 1 *ᵈ a *ᵈ c)) /ᵈ (twoᵈ *ᵈ a) := by
+  unfold selectRoot
+  simp only []
+  rw [if_neg (by rw [NumDual.isZero_eq]; exact ha), maskNeg_keep _ _ h1, if_pos]
+  rw [NumDual.le_eq, NumDual.abs_eq, NumDual.abs_eq]
+  show |_| ≤ |_|
+  rw [hz, abs_zero]; exact abs_nonneg _
+
+theorem selectRoot_second (a b c z N : Dual) (ha : a.v ≠ 0)
+    (h1 : ¬ ((-ᵈ b +ᵈ Num.sqrt (b *ᵈ b -ᵈ Num.ofRat 4 1 *ᵈ a *ᵈ c)) /ᵈ (twoᵈ *ᵈ a)).v < 0)
+    (h2 : ¬ ((-ᵈ b -ᵈ Num.sqrt (b *ᵈ b -ᵈ Num.ofRat 4 1 *ᵈ a *ᵈ c)) /ᵈ (twoᵈ *ᵈ a)).v < 0)
+    (hz1 : (z +ᵈ ((-ᵈ b +ᵈ Num.sqrt (b *ᵈ b -ᵈ Num.ofRat 4 1 *ᵈ a *ᵈ c)) /ᵈ (twoᵈ *ᵈ a)) *ᵈ N).v ≠ 0)
+    (hz2 : (z +ᵈ ((-ᵈ b -ᵈ Num.sqrt (b *ᵈ b -ᵈ Num.ofRat 4 1 *ᵈ a *ᵈ c)) /ᵈ (twoᵈ *ᵈ a)) *ᵈ N).v = 0) :
+    selectRoot a b c z N = (-ᵈ b -ᵈ Num.sqrt (b *ᵈ b -ᵈ Num.ofRat 4 1 *ᵈ a *ᵈ c)) /ᵈ (twoᵈ *ᵈ a) := by
+  unfold selectRoot
+  simp only []
+  rw [if_neg (by rw [NumDual.isZero_eq]; exact ha), maskNeg_keep _ _ h1, maskNeg_keep _ _ h2, if_neg]
+  rw [NumDual.le_eq, NumDual.abs_eq, NumDual.abs_eq]
+  show ¬ (|_| ≤ |_|)
+  rw [hz2, abs_zero]
+  intro h
+  exact hz1 (abs_eq_zero.mp (le_antisymm h (abs_nonneg _)))
+
+theorem root_plus (A B C : ℝ) :
+    ((-ᵈ (⟨B,0⟩ : Dual) +ᵈ Num.sqrt (⟨B,0⟩ *ᵈ ⟨B,0⟩ -ᵈ Num.ofRat 4 1 *ᵈ ⟨A,0⟩ *ᵈ ⟨C,0⟩)) /ᵈ (twoᵈ *ᵈ ⟨A,0⟩) : Dual)
+      = ⟨(-B + Real.sqrt (B * B - 4 * A * C)) / (2 * A), 0⟩ := by
+  simp only [NumDual.add_eq, NumDual.sub_eq, NumDual.mul_eq, NumDual.div_eq, NumDual.neg_eq,
+    NumDual.two_eq, NumDual.sqrt_eq, NumDual.ofRat_eq, mul_zero, zero_mul, add_zero, zero_add,
+    sub_zero, neg_zero, zero_div, Nat.cast_ofNat, Nat.cast_one, div_one]
+
+theorem root_minus (A B C : ℝ) :
+    ((-ᵈ (⟨B,0⟩ : Dual) -ᵈ Num.sqrt (⟨B,0⟩ *ᵈ ⟨B,0⟩ -ᵈ Num.ofRat 4 1 *ᵈ ⟨A,0⟩ *ᵈ ⟨C,0⟩)) /ᵈ (twoᵈ *ᵈ ⟨A,0⟩) : Dual)
+      = ⟨(-B - Real.sqrt (B * B - 4 * A * C)) / (2 * A), 0⟩ := by
+  simp only [NumDual.add_eq, NumDual.sub_eq, NumDual.mul_eq, NumDual.div_eq, NumDual.neg_eq,
+    NumDual.two_eq, NumDual.sqrt_eq, NumDual.ofRat_eq, mul_zero, zero_mul, add_zero, zero_add,
+    sub_zero, neg_zero, zero_div, Nat.cast_ofNat, Nat.cast_one, div_one]
+
+theorem disc_axis (A R z0 s : ℝ) (hs : s * s = 1) :
+    (s * (2 * A * z0 - 2 * R)) * (s * (2 * A * z0 - 2 * R)) - 4 * A * (A * (z0 * z0) - 2 * R * z0)
+      = (2 * R) ^ 2 := by
+  linear_combination (2 * A * z0 - 2 * R)^2 * hs
+
+/-- the quadratic of `mdist` on the axial seed ray -/
+theorem mdist_abc (k R z0 y1 m1 s : ℝ) (hs : s * s = 1) :
+    mdist (α := Dual) ⟨k,0⟩ ⟨R,0⟩ ⟨⟨0,y1⟩, ⟨z0,0⟩, ⟨0,m1⟩, ⟨s,0⟩⟩ =
+      selectRoot ⟨k + 1, 0⟩ ⟨s * (2 * (k + 1) * z0 - 2 * R), 0⟩ ⟨(k + 1) * (z0 * z0) - 2 * R * z0, 0⟩
+        ⟨z0, 0⟩ ⟨s, 0⟩ := by
+  unfold mdist
+  simp only []
+  congr 1
+  · simp only [NumDual.add_eq, NumDual.mul_eq, mul_zero, zero_mul, add_zero, hs]
+    apply Dual.ext' <;> simp only [] <;> ring
+  · simp only [NumDual.add_eq, NumDual.sub_eq, NumDual.mul_eq, NumDual.two_eq, mul_zero, zero_mul,
+      add_zero, zero_add, sub_zero]
+    apply Dual.ext' <;> simp only [] <;> ring
+  · simp only [NumDual.add_eq, NumDual.sub_eq, NumDual.mul_eq, NumDual.two_eq, mul_zero, zero_mul,
+      add_zero, zero_add, sub_zero]
+    apply Dual.ext' <;> simp only [] <;> ring
+
+theorem mdist_axis (k R z0 y1 m1 s : ℝ) (hs : s = 1 ∨ s = -1) (hR : R ≠ 0) (hz : s * z0 ≤ 0)
+    (hh : 1 + k < 0 → 0 < s * R → s * z0 ≤ s * (2 * R / (1 + k))) :
+    mdist (α := Dual) ⟨k,0⟩ ⟨R,0⟩ ⟨⟨0,y1⟩, ⟨z0,0⟩, ⟨0,m1⟩, ⟨s,0⟩⟩ = ⟨-z0 * s, 0⟩ := by
+  have hss : s * s = 1 := by rcases hs with rfl | rfl <;> norm_num
+  have hs0 : s ≠ 0 := by rcases hs with rfl | rfl <;> norm_num
+  rw [mdist_abc _ _ _ _ _ _ hss]
+  by_cases hk : k + 1 = 0
+  · rw [selectRoot_linear _ _ _ _ _ hk]
+    simp only [NumDual.neg_eq, NumDual.div_eq, hk, mul_zero, zero_mul, zero_sub, neg_zero, sub_zero,
+      zero_div]
+    congr 1
+    field_simp
+    linear_combination z0 * hss
+  · have hsR : s * R ≠ 0 := mul_ne_zero hs0 hR
+    have hd : (s * (2 * (k + 1) * z0 - 2 * R)) * (s * (2 * (k + 1) * z0 - 2 * R))
+        - 4 * (k + 1) * ((k + 1) * (z0 * z0) - 2 * R * z0) = (2 * (s * R)) ^ 2 := by
+      linear_combination ((2 * (k + 1) * z0 - 2 * R)^2 - 4 * R^2) * hss
+    rcases lt_or_gt_of_ne hsR with hn | hp
+    · -- the vertex is the `+` root
+      have hS : Real.sqrt ((s * (2 * (k + 1) * z0 - 2 * R)) * (s * (2 * (k + 1) * z0 - 2 * R))
+          - 4 * (k + 1) * ((k + 1) * (z0 * z0) - 2 * R * z0)) = -(2 * (s * R)) := by
+        rw [hd, Real.sqrt_sq_eq_abs, abs_of_neg (by linarith)]
+      have T1 := root_plus (k + 1) (s * (2 * (k + 1) * z0 - 2 * R)) ((k + 1) * (z0 * z0) - 2 * R * z0)
+      rw [hS] at T1
+      have e1 : (-(s * (2 * (k + 1) * z0 - 2 * R)) + -(2 * (s * R))) / (2 * (k + 1)) = -z0 * s := by
+        field_simp; ring
+      rw [e1] at T1
+      rw [selectRoot_first _ _ _ _ _ hk, T1]
+      · rw [T1]; show ¬ (-z0 * s < 0); linarith
+      · rw [T1]; show z0 + -z0 * s * s = 0; linear_combination (-z0) * hss
+    · -- the vertex is the `-` root
+      have hS : Real.sqrt ((s * (2 * (k + 1) * z0 - 2 * R)) * (s * (2 * (k + 1) * z0 - 2 * R))
+          - 4 * (k + 1) * ((k + 1) * (z0 * z0) - 2 * R * z0)) = 2 * (s * R) := by
+        rw [hd, Real.sqrt_sq_eq_abs, abs_of_pos (by linarith)]
+      have T1 := root_plus (k + 1) (s * (2 * (k + 1) * z0 - 2 * R)) ((k + 1) * (z0 * z0) - 2 * R * z0)
+      have T2 := root_minus (k + 1) (s * (2 * (k + 1) * z0 - 2 * R)) ((k + 1) * (z0 * z0) - 2 * R * z0)
+      rw [hS] at T1 T2
+      have e1 : (-(s * (2 * (k + 1) * z0 - 2 * R)) + 2 * (s * R)) / (2 * (k + 1))
+          = s * (2 * R / (k + 1)) - s * z0 := by
+        field_simp; ring
+      have e2 : (-(s * (2 * (k + 1) * z0 - 2 * R)) - 2 * (s * R)) / (2 * (k + 1)) = -z0 * s := by
+        field_simp; ring
+      rw [e1] at T1
+      rw [e2] at T2
+      have hfar : 0 ≤ s * (2 * R / (k + 1)) - s * z0 := by
+        rcases lt_or_gt_of_ne hk with hk' | hk'
+        · have := hh (by linarith) hp
+          rw [add_comm 1 k] at this; linarith
+        · have : 0 < s * (2 * R / (k + 1)) := by
+            have : s * (2 * R / (k + 1)) = 2 * (s * R) / (k + 1) := by ring
+            rw [this]; positivity
+          linarith
+      rw [selectRoot_second _ _ _ _ _ hk, T2]
+      · rw [T1]; show ¬ (s * (2 * R / (k + 1)) - s * z0 < 0); linarith
+      · rw [T2]; show ¬ (-z0 * s < 0); linarith
+      · rw [T1]; show z0 + (s * (2 * R / (k + 1)) - s * z0) * s ≠ 0
+        have : z0 + (s * (2 * R / (k + 1)) - s * z0) * s = 2 * R / (k + 1) := by
+          linear_combination (2 * R / (k + 1) - z0) * hss
+        rw [this]; exact div_ne_zero (mul_ne_zero two_ne_zero hR) hk
+      · rw [T2]; show z0 + -z0 * s * s = 0; linear_combination (-z0) * hss
+theorem mnormal_axis (k R Y : ℝ) (hR : R ≠ 0) :
+    mnormal (α := Dual) ⟨k,0⟩ ⟨R,0⟩ ⟨0,Y⟩ = (⟨0, Y / R⟩, ⟨-1, 0⟩) := by
+  simp only [mnormal, NumDual.add_eq, NumDual.sub_eq, NumDual.mul_eq, NumDual.div_eq, NumDual.neg_eq,
+    NumDual.one_eq, NumDual.sqrt_eq, mul_zero, zero_mul, add_zero, zero_add, sub_zero, zero_div,
+    Real.sqrt_one, mul_one, one_mul, neg_zero, zero_sub, sub_self, div_one]
+  refine Prod.ext (Dual.ext' ?_ ?_) (Dual.ext' ?_ ?_) <;> simp only [] <;> field_simp
+
+theorem mrefract_axis (n1 n2 m s ν c : ℝ) (hs : s = 1 ∨ s = -1) (hc : c = 1 ∨ c = -1) :
+    mrefract (α := Dual) ⟨n1,0⟩ ⟨n2,0⟩ ⟨0,m⟩ ⟨s,0⟩ ⟨0,ν⟩ ⟨c,0⟩
+      = (⟨0, n1 / n2 * m + (1 - n1 / n2) * (s * c * ν)⟩, ⟨s, 0⟩) := by
+  rcases hs with rfl | rfl <;> rcases hc with rfl | rfl <;>
+  · simp only [mrefract, malign, Num.sign, NumDual.add_eq, NumDual.sub_eq, NumDual.mul_eq, NumDual.div_eq,
+      NumDual.neg_eq, NumDual.one_eq, NumDual.sqrt_eq, NumDual.abs_eq, NumDual.lt_eq, NumDual.fzero_eq,
+      NumDual.fone_eq, NumDual.fneg_eq, mul_zero, zero_mul, add_zero, zero_add, sub_zero, zero_div,
+      mul_one, one_mul, neg_zero, zero_sub, sub_self]
+    norm_num
+    ring
+
+theorem mreflect_axis (m s ν c : ℝ) (hs : s = 1 ∨ s = -1) (hc : c = 1 ∨ c = -1) :
+    mreflect (α := Dual) ⟨0,m⟩ ⟨s,0⟩ ⟨0,ν⟩ ⟨c,0⟩ = (⟨0, m - 2 * (s * c * ν)⟩, ⟨-s, 0⟩) := by
+  rcases hs with rfl | rfl <;> rcases hc with rfl | rfl <;>
+  · simp only [mreflect, malign, Num.sign, NumDual.add_eq, NumDual.sub_eq, NumDual.mul_eq, NumDual.div_eq,
+      NumDual.neg_eq, NumDual.one_eq, NumDual.two_eq, NumDual.sqrt_eq, NumDual.abs_eq, NumDual.lt_eq,
+      NumDual.fzero_eq, NumDual.fone_eq, NumDual.fneg_eq, mul_zero, zero_mul, add_zero, zero_add, sub_zero,
+      zero_div, mul_one, one_mul, neg_zero, zero_sub, sub_self]
+    norm_num
+
+theorem seed_y (y1 m1 t : ℝ) : ((⟨0,y1⟩ : Dual) +ᵈ ⟨t,0⟩ *ᵈ ⟨0,m1⟩ : Dual) = ⟨0, y1 + t * m1⟩ := by
+  simp only [NumDual.add_eq, NumDual.mul_eq, mul_zero, zero_mul, add_zero, zero_add]
+
+theorem seed_z (z0 s : ℝ) (hss : s * s = 1) : ((⟨z0,0⟩ : Dual) +ᵈ ⟨-z0 * s,0⟩ *ᵈ ⟨s,0⟩ : Dual) = ⟨0, 0⟩ := by
+  simp only [NumDual.add_eq, NumDual.mul_eq, mul_zero, zero_mul, add_zero, zero_add]
+  congr 1
+  linear_combination (-z0) * hss
+
+theorem mstep_axis (k R n1 n2 z0 y1 m1 s : ℝ) (hs : s = 1 ∨ s = -1) (hR : R ≠ 0) (hz : s * z0 ≤ 0)
+    (hh : 1 + k < 0 → 0 < s * R → s * z0 ≤ s * (2 * R / (1 + k))) :
+    (mstep (α := Dual) ⟨k,0⟩ ⟨R,0⟩ ⟨n1,0⟩ ⟨n2,0⟩ ⟨⟨0,y1⟩, ⟨z0,0⟩, ⟨0,m1⟩, ⟨s,0⟩⟩).1 =
+      ⟨⟨0, y1 + -z0 * s * m1⟩, ⟨0, 0⟩,
+       ⟨0, n1 / n2 * m1 + (1 - n1 / n2) * (s * (-1) * ((y1 + -z0 * s * m1) / R))⟩, ⟨s, 0⟩⟩ := by
+  have hss : s * s = 1 := by rcases hs with rfl | rfl <;> norm_num
+  simp only [mstep]
+  rw [mdist_axis k R z0 y1 m1 s hs hR hz hh, seed_y, seed_z z0 s hss, mnormal_axis k R _ hR]
+  simp only []
+  rw [mrefract_axis n1 n2 m1 s _ (-1) hs (Or.inr rfl)]
+
+theorem mstepMirror_axis (k R z0 y1 m1 s : ℝ) (hs : s = 1 ∨ s = -1) (hR : R ≠ 0) (hz : s * z0 ≤ 0)
+    (hh : 1 + k < 0 → 0 < s * R → s * z0 ≤ s * (2 * R / (1 + k))) :
+    (mstepMirror (α := Dual) ⟨k,0⟩ ⟨R,0⟩ ⟨⟨0,y1⟩, ⟨z0,0⟩, ⟨0,m1⟩, ⟨s,0⟩⟩).1 =
+      ⟨⟨0, y1 + -z0 * s * m1⟩, ⟨0, 0⟩,
+       ⟨0, m1 - 2 * (s * (-1) * ((y1 + -z0 * s * m1) / R))⟩, ⟨-s, 0⟩⟩ := by
+  have hss : s * s = 1 := by rcases hs with rfl | rfl <;> norm_num
+  simp only [mstepMirror]
+  rw [mdist_axis k R z0 y1 m1 s hs hR hz hh, seed_y, seed_z z0 s hss, mnormal_axis k R _ hR]
+  simp only []
+  rw [mreflect_axis m1 s _ (-1) hs (Or.inr rfl)]
+
+/-- `Plane.distance` on the axial seed ray -/
+theorem plane_t (z0 s : ℝ) (hs : s = 1 ∨ s = -1) (hz : s * z0 ≤ 0) :
+    maskNeg (-ᵈ (⟨z0,0⟩ : Dual) /ᵈ ⟨s,0⟩) (Num.zero /ᵈ Num.zero) = ⟨-z0 * s, 0⟩ := by
+  have e : (-ᵈ (⟨z0,0⟩ : Dual) /ᵈ ⟨s,0⟩ : Dual) = ⟨-z0 * s, 0⟩ := by
+    simp only [NumDual.neg_eq, NumDual.div_eq, mul_zero, zero_mul, sub_zero, neg_zero, zero_div]
+    congr 1
+    rcases hs with rfl | rfl <;> norm_num
+  rw [e, maskNeg_keep]
+  show ¬ (-z0 * s < 0)
+  linarith
+
+theorem mstepPlane_axis (n1 n2 z0 y1 m1 s : ℝ) (hs : s = 1 ∨ s = -1) (hz : s * z0 ≤ 0) :
+    (mstepPlane (α := Dual) ⟨n1,0⟩ ⟨n2,0⟩ ⟨⟨0,y1⟩, ⟨z0,0⟩, ⟨0,m1⟩, ⟨s,0⟩⟩).1 =
+      ⟨⟨0, y1 + -z0 * s * m1⟩, ⟨0, 0⟩, ⟨0, n1 / n2 * m1 + (1 - n1 / n2) * (s * 1 * 0)⟩, ⟨s, 0⟩⟩ := by
+  have hss : s * s = 1 := by rcases hs with rfl | rfl <;> norm_num
+  simp only [mstepPlane]
+  rw [plane_t z0 s hs hz, seed_y, seed_z z0 s hss, NumDual.zero_eq, NumDual.one_eq,
+    mrefract_axis n1 n2 m1 s 0 1 hs (Or.inl rfl)]
+
+theorem mstepPlaneMirror_axis (z0 y1 m1 s : ℝ) (hs : s = 1 ∨ s = -1) (hz : s * z0 ≤ 0) :
+    (mstepPlaneMirror (α := Dual) ⟨⟨0,y1⟩, ⟨z0,0⟩, ⟨0,m1⟩, ⟨s,0⟩⟩).1 =
+      ⟨⟨0, y1 + -z0 * s * m1⟩, ⟨0, 0⟩, ⟨0, m1 - 2 * (s * 1 * 0)⟩, ⟨-s, 0⟩⟩ := by
+  have hss : s * s = 1 := by rcases hs with rfl | rfl <;> norm_num
+  simp only [mstepPlaneMirror]
+  rw [plane_t z0 s hs hz, seed_y, seed_z z0 s hss, NumDual.zero_eq, NumDual.one_eq,
+    mreflect_axis m1 s 0 1 hs (Or.inl rfl)]
+
+theorem mstepImage_axis (z0 y1 m1 s : ℝ) (hs : s = 1 ∨ s = -1) (hz : s * z0 ≤ 0) :
+    (mstepImage (α := Dual) ⟨⟨0,y1⟩, ⟨z0,0⟩, ⟨0,m1⟩, ⟨s,0⟩⟩).1 =
+      ⟨⟨0, y1 + -z0 * s * m1⟩, ⟨0, 0⟩, ⟨0, m1⟩, ⟨s, 0⟩⟩ := by
+  have hss : s * s = 1 := by rcases hs with rfl | rfl <;> norm_num
+  simp only [mstepImage]
+  rw [plane_t z0 s hs hz, seed_y, seed_z z0 s hss]
+
+/-! ### the single-surface theorems in the form of `mstep_jet` (forward travel, `N = 1`) -/
+
+/-- **mstep_jet_neg**: `mstep_jet` for `R < 0` and *every* conic constant (the vertex is the `+`
+root of `selectRoot`, resp. the linear branch for `k = -1`; the other root of an ellipsoid /
+hyperboloid lies at `z = 2R/(1+k)` and is never nearer to `z = 0` than the vertex).
+Only `n₂ ≠ 0` is needed of the indices. -/
+theorem mstep_jet_neg (k R n1 n2 z0 y1 m1 : ℝ) (hR : R < 0) (hn2 : n2 ≠ 0) (hz : z0 ≤ 0) :
+    let out := (mstep (α := Dual) ⟨k,0⟩ ⟨R,0⟩ ⟨n1,0⟩ ⟨n2,0⟩ ⟨⟨0,y1⟩, ⟨z0,0⟩, ⟨0,m1⟩, ⟨1,0⟩⟩).1
+    out.y = ⟨0, y1 - z0*m1⟩ ∧ out.z = ⟨0, 0⟩ ∧
+      out.M = ⟨0, (n1/n2)*m1 - (1 - n1/n2) * (y1 - z0*m1) / R⟩ ∧ out.N = ⟨1, 0⟩ := by
+  intro out
+  have h := mstep_axis k R n1 n2 z0 y1 m1 1 (Or.inl rfl) (ne_of_lt hR) (by linarith)
+    (fun _ h => absurd h (by linarith))
+  simp only [out, h]
+  refine ⟨?_, trivial, ?_, trivial⟩
+  · congr 1; ring
+  · congr 1; have := ne_of_lt hR; field_simp; ring
+
+/-- **mstep_jet_k**: `mstep_jet` for `R > 0` and every conic constant, in particular `1 + k ≤ 0`
+(for `1 + k > 0` this is `mstep_jet` with `n₂ ≠ 0` instead of positive indices).  `k = -1`
+(paraboloid) takes the linear branch `-c/b` of `selectRoot` and needs no further guard.  For `k < -1` the vertex is the
+`-` root and the `+` root (the other sheet of the hyperboloid, at `z = 2R/(1+k) < 0`) must not be
+masked: the guard is `z₀ ≤ 2R/(1+k)`, i.e. the ray starts behind the other sheet.
+What the code does for `2R/(1+k) < z₀ ≤ 0`: `t1 < 0` is replaced by `np.inf`, `|z + inf·N| ≤ 0`
+is false and the vertex root is taken, i.e. the same result; over ℝ/`Dual` `Num.inf` is a junk
+value, so that case is *not* claimed here.  It is covered at the level of `mdist` by
+`mdist_axis_anyinf` below, for every value of the placeholder. -/
+theorem mstep_jet_k (k R n1 n2 z0 y1 m1 : ℝ) (hR : 0 < R) (hn2 : n2 ≠ 0)
+    (hz : z0 ≤ 0) (hh : 1 + k < 0 → z0 ≤ 2 * R / (1 + k)) :
+    let out := (mstep (α := Dual) ⟨k,0⟩ ⟨R,0⟩ ⟨n1,0⟩ ⟨n2,0⟩ ⟨⟨0,y1⟩, ⟨z0,0⟩, ⟨0,m1⟩, ⟨1,0⟩⟩).1
+    out.y = ⟨0, y1 - z0*m1⟩ ∧ out.z = ⟨0, 0⟩ ∧
+      out.M = ⟨0, (n1/n2)*m1 - (1 - n1/n2) * (y1 - z0*m1) / R⟩ ∧ out.N = ⟨1, 0⟩ := by
+  intro out
+  have h := mstep_axis k R n1 n2 z0 y1 m1 1 (Or.inl rfl) (ne_of_gt hR) (by linarith)
+    (fun h1 _ => by have := hh h1; linarith)
+  simp only [out, h]
+  refine ⟨?_, trivial, ?_, trivial⟩
+  · congr 1; ring
+  · congr 1; have := ne_of_gt hR; field_simp; ring
+
+/-- **mstepMirror_jet** (one reflecting conic, forward travel): the ray stays on the axis and
+turns round (`N = -1`), and the ε-coefficients are `Surface._trace_paraxial` with the reflective
+flag: `y' = p.y`, and the slope `M'/N' = -M'` is `p.u = -m₁ - 2 y'/R`. -/
+theorem mstepMirror_jet (k R n1 n2 z0 y1 m1 : ℝ) (hR : R ≠ 0) (hz : z0 ≤ 0)
+    (hh : 1 + k < 0 → 0 < R → z0 ≤ 2 * R / (1 + k)) :
+    let out := (mstepMirror (α := Dual) ⟨k,0⟩ ⟨R,0⟩ ⟨⟨0,y1⟩, ⟨z0,0⟩, ⟨0,m1⟩, ⟨1,0⟩⟩).1
+    let p := pstepStd ⟨y1, m1, z0⟩ ⟨.standard, 0, 0, R, n1, n2, true, false⟩
+    out.y = ⟨0, p.y⟩ ∧ out.z = ⟨0, 0⟩ ∧ out.M = ⟨0, -p.u⟩ ∧ out.N = ⟨-1, 0⟩ ∧
+      p.y = y1 - z0*m1 ∧ p.u = -m1 - 2 * (y1 - z0*m1) / R := by
+  intro out p
+  have h := mstepMirror_axis k R z0 y1 m1 1 (Or.inl rfl) hR (by linarith)
+    (fun h1 h2 => by have := hh h1 (by linarith); linarith)
+  have hp : p.y = y1 - z0*m1 ∧ p.u = -m1 - 2 * (y1 - z0*m1) / R := by
+    simp only [p, pstepStd]
+    num_real
+    simp only [if_true]
+    constructor <;> ring
+  simp only [out, h, hp.1, hp.2]
+  refine ⟨?_, trivial, ?_, trivial, trivial, trivial⟩
+  · congr 1; ring
+  · congr 1; field_simp; ring
+
+/-- **mstepPlane_jet** (refraction at a plane, forward travel): the ε-coefficients are
+`Surface._trace_paraxial` of a surface without power (`Plane.radius = ∞`, encoded `r = 0` over
+ℝ): `y' = y₁ - z₀ m₁`, `u' = (n₁/n₂) m₁`. -/
+theorem mstepPlane_jet (n1 n2 z0 y1 m1 : ℝ) (hn2 : n2 ≠ 0) (hz : z0 ≤ 0) :
+    let out := (mstepPlane (α := Dual) ⟨n1,0⟩ ⟨n2,0⟩ ⟨⟨0,y1⟩, ⟨z0,0⟩, ⟨0,m1⟩, ⟨1,0⟩⟩).1
+    let p := pstepStd ⟨y1, m1, z0⟩ ⟨.standard, 0, 0, 0, n1, n2, false, false⟩
+    out.y = ⟨0, p.y⟩ ∧ out.z = ⟨0, 0⟩ ∧ out.M = ⟨0, p.u⟩ ∧ out.N = ⟨1, 0⟩ ∧
+      p.y = y1 - z0*m1 ∧ p.u = (n1/n2)*m1 := by
+  intro out p
+  have h := mstepPlane_axis n1 n2 z0 y1 m1 1 (Or.inl rfl) (by linarith)
+  have hp : p.y = y1 - z0*m1 ∧ p.u = (n1/n2)*m1 := by
+    simp only [p, pstepStd]
+    num_real
+    simp only [Bool.false_eq_true, if_false, div_zero, mul_zero, sub_zero]
+    constructor
+    · ring
+    · field_simp
+  simp only [out, h, hp.1, hp.2]
+  refine ⟨?_, trivial, ?_, trivial, trivial, trivial⟩
+  · congr 1; ring
+  · congr 1; ring
+
+/-! ### whole lens: `mtrace` over jets is `ptrace`
+
+`mtrace` (Model/Merid.lean) is `SurfaceGroup.trace` for one meridional ray of a rotationally
+symmetric lens: per surface localize by the vertex position, intersect, refract/reflect,
+globalize.  The guards of `okList` say that every surface is met from the front along the
+current direction of travel (`s (z - z_vertex) ≤ 0`; this is what makes `mdist`/`Plane.distance`
+return the non-negative distance to the vertex rather than a masked value), `R ≠ 0`, `n₂ ≠ 0`
+for refracting surfaces, and `hyperOk` for hyperboloids met from the concave side. -/
+
+/-- constants have no ε-part -/
+def liftS (sf : MSurf ℝ) : MSurf Dual :=
+  ⟨sf.kind, ⟨sf.z, 0⟩, ⟨sf.k, 0⟩, ⟨sf.R, 0⟩, ⟨sf.n1, 0⟩, ⟨sf.n2, 0⟩⟩
+
+/-- what the paraxial tracer reads from the same surface (`Plane.radius = ∞` is encoded as
+`r = 0` over ℝ, see `Model/Parax.lean`) -/
+def toPSurf (sf : MSurf ℝ) : PSurf ℝ :=
+  match sf.kind with
+  | .object => ⟨.object, 0, sf.z, 0, sf.n1, sf.n2, false, false⟩
+  | .conic => ⟨.standard, 0, sf.z, sf.R, sf.n1, sf.n2, false, false⟩
+  | .conicMirror => ⟨.standard, 0, sf.z, sf.R, sf.n1, sf.n2, true, false⟩
+  | .plane => ⟨.standard, 0, sf.z, 0, sf.n1, sf.n2, false, false⟩
+  | .planeMirror => ⟨.standard, 0, sf.z, 0, sf.n1, sf.n2, true, false⟩
+  | .image => ⟨.image, 0, sf.z, 0, sf.n1, sf.n2, false, false⟩
+
+/-- the jet of an axial ray travelling in direction `s = ±1` whose ε-coefficients are the
+paraxial ray `p`: `y = 0 + ε p.y`, `z = p.z`, `M = 0 + ε s p.u`, `N = s` (so `M/N = ε p.u`) -/
+def axial (s : ℝ) (p : PRay ℝ) : MRay Dual := ⟨⟨0, p.y⟩, ⟨p.z, 0⟩, ⟨0, s * p.u⟩, ⟨s, 0⟩⟩
+
+/-- the near-root guard of `selectRoot` for a hyperboloid met from its concave side -/
+def hyperOk (s z0 k R : ℝ) : Prop := 1 + k < 0 → 0 < s * R → s * z0 ≤ s * (2 * R / (1 + k))
+
+/-- per-surface guard, for a ray arriving in direction `s` from the axial point `z` -/
+def okSurf (s z : ℝ) (sf : MSurf ℝ) : Prop :=
+  match sf.kind with
+  | .object => True
+  | .conic => s * (z - sf.z) ≤ 0 ∧ sf.R ≠ 0 ∧ sf.n2 ≠ 0 ∧ hyperOk s (z - sf.z) sf.k sf.R
+  | .conicMirror => s * (z - sf.z) ≤ 0 ∧ sf.R ≠ 0 ∧ hyperOk s (z - sf.z) sf.k sf.R
+  | .plane => s * (z - sf.z) ≤ 0 ∧ sf.n2 ≠ 0
+  | .planeMirror => s * (z - sf.z) ≤ 0
+  | .image => s * (z - sf.z) ≤ 0
+
+def dirAfter (s : ℝ) (sf : MSurf ℝ) : ℝ :=
+  match sf.kind with
+  | .conicMirror => -s
+  | .planeMirror => -s
+  | _ => s
+
+def zAfter (z : ℝ) (sf : MSurf ℝ) : ℝ :=
+  match sf.kind with
+  | .object => z
+  | _ => sf.z
+
+/-- guard of a surface list: every surface is met from the front (in the current direction of
+travel), and an image surface is the last one (`ImageSurface._trace_paraxial` does not
+globalize, so the paraxial z after it is the local one) -/
+def okList : ℝ → ℝ → List (MSurf ℝ) → Prop
+  | _, _, [] => True
+  | s, z, sf :: rest =>
+    okSurf s z sf ∧ (sf.kind = .image → rest = []) ∧ okList (dirAfter s sf) (zAfter z sf) rest
+
+theorem dirAfter_pm (s : ℝ) (sf : MSurf ℝ) (hs : s = 1 ∨ s = -1) :
+    dirAfter s sf = 1 ∨ dirAfter s sf = -1 := by
+  unfold dirAfter
+  rcases hs with rfl | rfl <;> cases sf.kind <;> norm_num
+
+/-- one surface of the whole-lens trace: localize, step, globalize on an axial jet gives the
+axial jet of the paraxial step (for the image surface up to the paraxial z, which
+`pstepImg` leaves in the local frame) -/
+theorem mstepSurf_axial (s : ℝ) (p : PRay ℝ) (sf : MSurf ℝ) (hs : s = 1 ∨ s = -1)
+    (ok : okSurf s p.z sf) :
+    mstepSurf (liftS sf) (axial s p) =
+      axial (dirAfter s sf) ⟨(pstep p (toPSurf sf)).y, (pstep p (toPSurf sf)).u, zAfter p.z sf⟩ ∧
+    (sf.kind ≠ .image → (pstep p (toPSurf sf)).z = zAfter p.z sf) := by
+  have hss : s * s = 1 := by rcases hs with rfl | rfl <;> norm_num
+  obtain ⟨kind, zv, k, R, n1, n2⟩ := sf
+  obtain ⟨py, pu, pz⟩ := p
+  have hl : ((⟨pz, 0⟩ : Dual) +ᵈ -ᵈ (⟨zv, 0⟩ : Dual) : Dual) = ⟨pz - zv, 0⟩ := by
+    simp only [NumDual.add_eq, NumDual.neg_eq, neg_zero, add_zero]; congr 1
+  have hg : ((⟨0, 0⟩ : Dual) +ᵈ (⟨zv, 0⟩ : Dual) : Dual) = ⟨zv, 0⟩ := by
+    simp only [NumDual.add_eq, zero_add]
+  have hY : py + -(pz - zv) * s * (s * pu) = py - (pz - zv) * pu := by
+    linear_combination (-(pz - zv) * pu) * hss
+  cases kind
+  · -- object
+    simp only [mstepSurf, liftS, axial, dirAfter, zAfter, pstep, toPSurf, and_self, ne_eq,
+      not_false_eq_true, reduceCtorEq, true_and, imp_self]
+  · -- conic
+    simp only [okSurf, hyperOk] at ok
+    obtain ⟨hz, hR, hn2, hh⟩ := ok
+    simp only [mstepSurf, mstepLocal, liftS, axial, hl]
+    rw [mstep_axis k R n1 n2 (pz - zv) py (s * pu) s hs hR hz hh]
+    simp only [hg, dirAfter, zAfter, pstep, toPSurf, pstepStd]
+    num_real
+    rw [hY]
+    simp only [Bool.false_eq_true, if_false, MRay.mk.injEq, Dual.mk.injEq, true_and, and_true]
+    refine ⟨⟨by ring, ?_⟩, fun _ => by ring⟩
+    field_simp
+    ring
+  · -- conic mirror
+    simp only [okSurf, hyperOk] at ok
+    obtain ⟨hz, hR, hh⟩ := ok
+    simp only [mstepSurf, mstepLocal, liftS, axial, hl]
+    rw [mstepMirror_axis k R (pz - zv) py (s * pu) s hs hR hz hh]
+    simp only [hg, dirAfter, zAfter, pstep, toPSurf, pstepStd]
+    num_real
+    rw [hY]
+    simp only [if_true, MRay.mk.injEq, Dual.mk.injEq, true_and, and_true]
+    refine ⟨⟨by ring, ?_⟩, fun _ => by ring⟩
+    field_simp
+    ring
+  · -- plane
+    simp only [okSurf] at ok
+    obtain ⟨hz, hn2⟩ := ok
+    simp only [mstepSurf, mstepLocal, liftS, axial, hl]
+    rw [mstepPlane_axis n1 n2 (pz - zv) py (s * pu) s hs hz]
+    simp only [hg, dirAfter, zAfter, pstep, toPSurf, pstepStd]
+    num_real
+    rw [hY]
+    simp only [Bool.false_eq_true, if_false, MRay.mk.injEq, Dual.mk.injEq, true_and, and_true, div_zero,
+      mul_zero, sub_zero]
+    refine ⟨⟨by ring, ?_⟩, fun _ => by ring⟩
+    field_simp
+    ring
+  · -- plane mirror
+    simp only [okSurf] at ok
+    simp only [mstepSurf, mstepLocal, liftS, axial, hl]
+    rw [mstepPlaneMirror_axis (pz - zv) py (s * pu) s hs ok]
+    simp only [hg, dirAfter, zAfter, pstep, toPSurf, pstepStd]
+    num_real
+    rw [hY]
+    simp only [if_true, MRay.mk.injEq, Dual.mk.injEq, true_and, and_true, div_zero, mul_zero, sub_zero]
+    refine ⟨⟨by ring, by ring⟩, fun _ => by ring⟩
+  · -- image
+    simp only [okSurf] at ok
+    simp only [mstepSurf, mstepLocal, liftS, axial, hl]
+    rw [mstepImage_axis (pz - zv) py (s * pu) s hs ok]
+    simp only [hg, dirAfter, zAfter, pstep, toPSurf, pstepImg]
+    num_real
+    rw [hY]
+    simp only [MRay.mk.injEq, Dual.mk.injEq, true_and, and_true, ne_eq, not_true_eq_false, false_imp_iff]
+    ring
+
+/-- `r` is the first-order jet of an axial ray: on the axis, direction `s = ±1`, no first-order
+change of `z` and `N`, and the ε-coefficients of `y` and of the slope `M/N` are the paraxial
+height and angle of `p` -/
+def JetOf (r : MRay Dual) (p : PRay ℝ) : Prop :=
+  ∃ s : ℝ, (s = 1 ∨ s = -1) ∧ r.y = ⟨0, p.y⟩ ∧ r.z.d = 0 ∧ r.M = ⟨0, s * p.u⟩ ∧ r.N = ⟨s, 0⟩
+
+theorem mtrace_jet (ss : List (MSurf ℝ)) : ∀ (s : ℝ) (p : PRay ℝ), (s = 1 ∨ s = -1) →
+    okList s p.z ss →
+    List.Forall₂ JetOf (mtrace (axial s p) (ss.map liftS)) (ptrace p (ss.map toPSurf)) := by
+  induction ss with
+  | nil => intro s p _ _; exact List.Forall₂.nil
+  | cons sf rest ih =>
+    intro s p hs ok
+    obtain ⟨ok1, himg, okr⟩ := ok
+    obtain ⟨e1, e2⟩ := mstepSurf_axial s p sf hs ok1
+    simp only [List.map_cons, mtrace, ptrace]
+    rw [e1]
+    refine List.Forall₂.cons ⟨dirAfter s sf, dirAfter_pm s sf hs, rfl, rfl, rfl, rfl⟩ ?_
+    by_cases hi : sf.kind = .image
+    · rw [himg hi]; exact List.Forall₂.nil
+    · have e2' := e2 hi
+      have hp : (⟨(pstep p (toPSurf sf)).y, (pstep p (toPSurf sf)).u, zAfter p.z sf⟩ : PRay ℝ)
+          = pstep p (toPSurf sf) := by rw [← e2']
+      rw [hp]
+      exact ih _ _ (dirAfter_pm s sf hs) (by rw [e2']; exact okr)
+
+/-- the launch data of `Paraxial.marginal_ray` -/
+noncomputable def marginalStart (S : PSys ℝ) : PRay ℝ :=
+  if S.objInf then ⟨EPD S / 2, 0, posOf S.surfs 1 - 10⟩
+  else ⟨0, EPD S / (2 * (EPL S - posOf S.surfs 0)), posOf S.surfs 0⟩
+
+theorem marginalRay_eq (S : PSys ℝ) : marginalRay S = ptrace (marginalStart S) S.surfs := by
+  unfold marginalRay marginalStart traceGeneric
+  num_real
+  by_cases h : S.objInf <;> simp [h]
+
+/-- the launch data of `Paraxial.chief_ray` -/
+noncomputable def chiefStart (S : PSys ℝ) : PRay ℝ :=
+  let inv := inverted S.surfs
+  let si := (stopIndex inv).getD 0
+  let z0 := posOf inv si
+  let rs := traceGeneric S.surfs 0 tenth z0 true (si + 1)
+  let u1 := match S.fieldType with
+    | .objectHeight =>
+      let t := posOf S.surfs 1 - posOf S.surfs 0
+      tenth * S.maxYField / (last (ys rs) + last (us rs) * t)
+    | .angle => tenth * Num.tan (deg2rad S.maxYField) / last (us rs)
+  let rn := traceGeneric S.surfs 0 u1 z0 true (si + 1)
+  ⟨- last (ys rn), last (us rn), posOf S.surfs 1⟩
+
+theorem chiefRay_eq (S : PSys ℝ) : chiefRay S = ptrace (chiefStart S) S.surfs := by
+  unfold chiefRay chiefStart
+  simp only [traceGeneric, Bool.false_eq_true, if_false, List.drop_zero]
+  rfl
+
+/-- **mtrace_jet_two**: the two-surface instance written out (a thick lens in air: two
+refracting conics); the general statement is `mtrace_jet`. -/
+theorem mtrace_jet_two (a b : MSurf ℝ) (p : PRay ℝ) (ha : a.kind = .conic) (hb : b.kind = .conic)
+    (oka : okSurf 1 p.z a) (okb : okSurf 1 a.z b) :
+    List.Forall₂ JetOf (mtrace (axial 1 p) [liftS a, liftS b]) (ptrace p [toPSurf a, toPSurf b]) := by
+  have h := mtrace_jet [a, b] 1 p (Or.inl rfl)
+  apply h
+  simp only [okList, dirAfter, zAfter, ha, hb, and_true, reduceCtorEq, false_imp_iff, true_and]
+  exact ⟨oka, okb⟩
+
+/-- the paraxial tracer does not read the stop flag -/
+def unstop (P : PSurf ℝ) : PSurf ℝ := { P with stop := false }
+
+theorem ptrace_unstop (l : List (PSurf ℝ)) : ∀ p : PRay ℝ, ptrace p (l.map unstop) = ptrace p l := by
+  induction l with
+  | nil => intro p; rfl
+  | cons P rest ih =>
+    intro p
+    have h : pstep p (unstop P) = pstep p P := by
+      obtain ⟨kind, dy, z, r, n1, n2, refl, stop⟩ := P
+      cases kind <;> rfl
+    simp only [List.map_cons, ptrace, h, ih]
+
+/-- **marginal_jet_partial**: `Paraxial.marginal_ray` is the first-order jet of the real
+meridional trace of the ray launched with the same first-order data: on the axis at
+`z = marginalStart.z`, `y = ε·EPD/2`, `M = 0` (infinite object), resp. `y = 0`,
+`M = ε·EPD/(2(EPL - z_obj))` (finite object).
+
+Full statement (not proved): the seed is the jet in `Py = ε` of `RayGen.generateRay S 0 0 0 ε`.
+Missing: the launch of `generateRay` evaluates `EPD`/`EPL` (paraxial traces) over `Dual`; one
+needs the lemma that a model function applied to constants `⟨c, 0⟩` returns `⟨f c, 0⟩`, which
+has not been set up for `ptrace`/`EPL`/`EPD`. -/
+theorem marginal_jet_partial (S : PSys ℝ) (ss : List (MSurf ℝ))
+    (hS : S.surfs.map unstop = ss.map toPSurf) (ok : okList 1 (marginalStart S).z ss) :
+    List.Forall₂ JetOf (mtrace (axial 1 (marginalStart S)) (ss.map liftS)) (marginalRay S) := by
+  rw [marginalRay_eq, ← ptrace_unstop, hS]
+  exact mtrace_jet ss 1 _ (Or.inl rfl) ok
+
+/-- **chief_jet_partial**: `Paraxial.chief_ray` is the first-order jet of the real meridional
+trace of the ray launched with the same first-order data (height `ε·ȳ` and slope `ε·ū` at the
+vertex plane of the first surface, as `chief_ray` itself starts its forward trace).
+Full statement / what is missing: as for `marginal_jet_partial` (field `Hy = ε`, pupil 0).
+Note the known finding F24: for object-height fields `chief_ray` is the chief ray of the object
+point `-H`, so the real chief ray launched by `RayGenerator` has the *opposite* first-order data;
+the theorem is about the ray with the launch data of `chief_ray` itself. -/
+theorem chief_jet_partial (S : PSys ℝ) (ss : List (MSurf ℝ))
+    (hS : S.surfs.map unstop = ss.map toPSurf) (ok : okList 1 (chiefStart S).z ss) :
+    List.Forall₂ JetOf (mtrace (axial 1 (chiefStart S)) (ss.map liftS)) (chiefRay S) := by
+  rw [chiefRay_eq, ← ptrace_unstop, hS]
+  exact mtrace_jet ss 1 _ (Or.inl rfl) ok
+
+/-! ### non-vacuity of the extension -/
+-- mstep_jet_neg: a concave-to-the-left sphere, an ellipsoid, a paraboloid and a hyperboloid
+example : (-50:ℝ) < 0 ∧ (1.5:ℝ) ≠ 0 ∧ (-10:ℝ) ≤ 0 := by norm_num
+-- mstep_jet_k: paraboloid k = -1 (no further guard) and hyperboloid k = -2, R = 50: 2R/(1+k) = -100
+example : (0:ℝ) < 50 ∧ (1.5:ℝ) ≠ 0 ∧ (-10:ℝ) ≤ 0 ∧ ((1:ℝ) + (-1) < 0 → (-10:ℝ) ≤ 2 * 50 / (1 + (-1))) := by norm_num
+example : (0:ℝ) < 50 ∧ (1.5:ℝ) ≠ 0 ∧ (-120:ℝ) ≤ 0 ∧ ((1:ℝ) + (-2) < 0 → (-120:ℝ) ≤ 2 * 50 / (1 + (-2))) := by norm_num
+-- mstepMirror_jet: concave mirror R = -100, k = -1
+example : (-100:ℝ) ≠ 0 ∧ (-30:ℝ) ≤ 0 ∧ ((1:ℝ) + (-1) < 0 → (0:ℝ) < -100 → (-30:ℝ) ≤ 2 * (-100) / (1 + (-1))) := by
+  norm_num
+-- mstepPlane_jet
+example : (1.5:ℝ) ≠ 0 ∧ (-3:ℝ) ≤ 0 := by norm_num
+-- mdist_axis / mstep_axis backwards (s = -1) on a surface with R < 0 (s R > 0), hyperboloid k = -3:
+-- 2R/(1+k) = 40, start at z0 = 50
+example : ((-1:ℝ) = 1 ∨ (-1:ℝ) = -1) ∧ (-40:ℝ) ≠ 0 ∧ (-1:ℝ) * 50 ≤ 0 ∧
+    ((1:ℝ) + (-3) < 0 → (0:ℝ) < -1 * -40 → (-1:ℝ) * 50 ≤ -1 * (2 * (-40) / (1 + (-3)))) := by norm_num
+
+/-- a catadioptric example lens: object, a biconvex singlet (conic front, spherical back),
+a parabolic concave mirror, then (travelling backwards) a plane window and the image plane -/
+noncomputable def exLens : List (MSurf ℝ) :=
+  [⟨.object, 0, 0, 0, 1, 1⟩, ⟨.conic, 0, -0.5, 50, 1, 1.5⟩, ⟨.conic, 5, 0, -50, 1.5, 1⟩,
+   ⟨.conicMirror, 40, -1, -100, 1, 1⟩, ⟨.plane, 20, 0, 0, 1, 1.5⟩, ⟨.image, 10, 0, 0, 1.5, 1.5⟩]
+
+theorem exLens_ok : okList 1 (-10) exLens := by
+  simp only [exLens, okList, okSurf, hyperOk, dirAfter, zAfter, reduceCtorEq, false_imp_iff, true_and,
+    and_true, imp_self]
+  norm_num
+
+/-- `mtrace_jet` applies to the example: marginal-type seed (height 12.5, parallel to the axis) -/
+example : List.Forall₂ JetOf (mtrace (axial 1 ⟨12.5, 0, -10⟩) (exLens.map liftS))
+    (ptrace ⟨12.5, 0, -10⟩ (exLens.map toPSurf)) :=
+  mtrace_jet exLens 1 ⟨12.5, 0, -10⟩ (Or.inl rfl) exLens_ok
+
+-- mtrace_jet_two: the singlet of the example
+example : okSurf 1 (-10) ⟨.conic, 0, -0.5, 50, 1, 1.5⟩ ∧ okSurf 1 0 ⟨.conic, 5, 0, -50, 1.5, 1⟩ := by
+  simp only [okSurf, hyperOk]; norm_num
+
+/-- marginal_jet_partial / chief_jet_partial: an infinite-conjugate system on the example lens
+(EPD 25, field 5°, stop on the first lens surface) -/
+noncomputable def exSys : PSys ℝ :=
+  ⟨[⟨.object, 0, 0, 0, 1, 1, false, false⟩, ⟨.standard, 0, 0, 50, 1, 1.5, false, true⟩,
+    ⟨.standard, 0, 5, -50, 1.5, 1, false, false⟩, ⟨.standard, 0, 40, -100, 1, 1, true, false⟩,
+    ⟨.standard, 0, 20, 0, 1, 1.5, false, false⟩, ⟨.image, 0, 10, 0, 1.5, 1.5, false, false⟩],
+   .EPD, 25, .angle, 5, true⟩
+
+theorem exSys_surfs : exSys.surfs.map unstop = exLens.map toPSurf := by
+  simp [exSys, exLens, unstop, toPSurf]
+
+theorem exSys_marginal_z : (marginalStart exSys).z = -10 := by
+  simp [marginalStart, exSys, posOf]
+
+theorem exSys_chief_z : (chiefStart exSys).z = 0 := by
+  simp [chiefStart, exSys, posOf]
+
+example : List.Forall₂ JetOf (mtrace (axial 1 (marginalStart exSys)) (exLens.map liftS))
+    (marginalRay exSys) :=
+  marginal_jet_partial exSys exLens exSys_surfs (by rw [exSys_marginal_z]; exact exLens_ok)
+
+example : List.Forall₂ JetOf (mtrace (axial 1 (chiefStart exSys)) (exLens.map liftS))
+    (chiefRay exSys) :=
+  chief_jet_partial exSys exLens exSys_surfs (by
+    rw [exSys_chief_z]
+    simp only [exLens, okList, okSurf, hyperOk, dirAfter, zAfter, reduceCtorEq, false_imp_iff, true_and,
+      and_true, imp_self]
+    norm_num)
+/-! ### `mtrace` is the 3-D model `traceLens` restricted to a meridional ray
+
+Over `Dual` the x- and L-components of a meridional ray stay exactly `0 + 0ε`, and the y, z, M, N
+components of `Surface._trace_real` are `mstepSurf`.  Absorption, aperture and coating only act
+on the intensity, the optical path is carried along. -/
+
+/-- a meridional ray as a ray of the 3-D model -/
+def ray3 (r : MRay Dual) (i opd : Dual) : Ray Dual := ⟨⟨0,0⟩, r.y, r.z, ⟨0,0⟩, r.M, r.N, i, opd⟩
+
+theorem d_zero_div (a : Dual) : (⟨0,0⟩ : Dual) /ᵈ a = ⟨0,0⟩ := by
+  simp only [NumDual.div_eq, zero_div, zero_mul, mul_zero, sub_zero]
+theorem d_zero_mul (a : Dual) : (⟨0,0⟩ : Dual) *ᵈ a = ⟨0,0⟩ := by
+  simp only [NumDual.mul_eq, zero_mul, mul_zero, add_zero]
+theorem d_mul_zero (a : Dual) : a *ᵈ (⟨0,0⟩ : Dual) = ⟨0,0⟩ := by
+  simp only [NumDual.mul_eq, zero_mul, mul_zero, add_zero]
+theorem d_zero_add (a : Dual) : (⟨0,0⟩ : Dual) +ᵈ a = a := by
+  simp only [NumDual.add_eq, zero_add]
+theorem d_add_zero (a : Dual) : a +ᵈ (⟨0,0⟩ : Dual) = a := by
+  simp only [NumDual.add_eq, add_zero]
+theorem d_sub_zero (a : Dual) : a -ᵈ (⟨0,0⟩ : Dual) = a := by
+  simp only [NumDual.sub_eq, sub_zero]
+theorem d_neg_zero : -ᵈ (⟨0,0⟩ : Dual) = ⟨0,0⟩ := by
+  simp only [NumDual.neg_eq, neg_zero]
+theorem d_neg_one_sq : (-ᵈ (@OfNat.ofNat Dual 1 Num.inst1)) *ᵈ (-ᵈ (@OfNat.ofNat Dual 1 Num.inst1))
+    = (@OfNat.ofNat Dual 1 Num.inst1) := by
+  simp only [NumDual.neg_eq, NumDual.one_eq, NumDual.mul_eq, neg_zero, mul_zero, zero_mul, add_zero,
+    mul_neg, mul_one, neg_neg]
+
+theorem stdDistance_merid (R k y z M N i o : Dual) :
+    stdDistance R k (⟨⟨0,0⟩, y, z, ⟨0,0⟩, M, N, i, o⟩ : Ray Dual) = mdist k R ⟨y, z, M, N⟩ := by
+  simp only [stdDistance, conicABC, mdist]
+  congr 1
+  · apply Dual.ext' <;>
+      simp only [NumDual.add_eq, NumDual.sub_eq, NumDual.mul_eq, NumDual.two_eq, mul_zero, zero_mul,
+        add_zero, zero_add]
+  · apply Dual.ext' <;>
+      simp only [NumDual.add_eq, NumDual.sub_eq, NumDual.mul_eq, NumDual.two_eq, mul_zero, zero_mul,
+        add_zero, zero_add]
+  · apply Dual.ext' <;>
+      simp only [NumDual.add_eq, NumDual.sub_eq, NumDual.mul_eq, NumDual.two_eq, mul_zero, zero_mul,
+        add_zero, zero_add]
+
+theorem stdNormal_merid (R k y : Dual) :
+    stdNormal R k ⟨0,0⟩ y = (⟨0,0⟩, (mnormal k R y).1, (mnormal k R y).2) := by
+  simp only [stdNormal, conicSlope, mnormal, d_zero_div, d_zero_mul, d_zero_add, d_neg_one_sq]
+
+theorem alignNormal_merid (M N ny nz : Dual) :
+    alignNormal ⟨0,0⟩ M N ⟨0,0⟩ ny nz =
+      (⟨0,0⟩, (malign M N ny nz).1, (malign M N ny nz).2.1, (malign M N ny nz).2.2) := by
+  simp only [alignNormal, malign, d_zero_mul, d_zero_add]
+
+theorem refract_merid (y z M N i o ny nz n1 n2 : Dual) :
+    (⟨⟨0,0⟩, y, z, ⟨0,0⟩, M, N, i, o⟩ : Ray Dual).refract ⟨0,0⟩ ny nz n1 n2 =
+      (⟨⟨0,0⟩, y, z, ⟨0,0⟩, (mrefract n1 n2 M N ny nz).1, (mrefract n1 n2 M N ny nz).2, i, o⟩ : Ray Dual) := by
+  simp only [Ray.refract, alignNormal_merid, mrefract, d_zero_mul, d_mul_zero, d_zero_add,
+    d_sub_zero, d_add_zero]
+
+theorem reflect_merid (y z M N i o ny nz : Dual) :
+    (⟨⟨0,0⟩, y, z, ⟨0,0⟩, M, N, i, o⟩ : Ray Dual).reflect ⟨0,0⟩ ny nz =
+      (⟨⟨0,0⟩, y, z, ⟨0,0⟩, (mreflect M N ny nz).1, (mreflect M N ny nz).2, i, o⟩ : Ray Dual) := by
+  simp only [Ray.reflect, alignNormal_merid, mreflect, d_zero_mul, d_mul_zero, d_zero_add,
+    d_sub_zero, d_add_zero]
+
+/-- the intensity after `propagate` (irrelevant for the geometry) -/
+noncomputable def propI (i t k1 w : Dual) : Dual := ((⟨⟨0,0⟩, i, i, ⟨0,0⟩, i, i, i, i⟩ : Ray Dual).propagate t k1 w).i
+
+theorem propagate_merid (y z M N i o t k1 w : Dual) :
+    (⟨⟨0,0⟩, y, z, ⟨0,0⟩, M, N, i, o⟩ : Ray Dual).propagate t k1 w = (⟨⟨0,0⟩, y +ᵈ t *ᵈ M, z +ᵈ t *ᵈ N, ⟨0,0⟩, M, N, propI i t k1 w, o⟩ : Ray Dual) := by
+  simp only [Ray.propagate, propI, d_mul_zero, d_add_zero]
+
+/-- the intensity after the aperture clip -/
+noncomputable def clipI (ap : Option (Dual × Dual)) (y i : Dual) : Dual :=
+  (clip ap (⟨⟨0,0⟩, y, y, ⟨0,0⟩, y, y, i, i⟩ : Ray Dual)).i
+
+theorem clip_merid (ap : Option (Dual × Dual)) (y z M N i o : Dual) :
+    clip ap (⟨⟨0,0⟩, y, z, ⟨0,0⟩, M, N, i, o⟩ : Ray Dual) = (⟨⟨0,0⟩, y, z, ⟨0,0⟩, M, N, clipI ap y i, o⟩ : Ray Dual) := by
+  cases ap with
+  | none => rfl
+  | some p =>
+    obtain ⟨a, b⟩ := p
+    simp only [clip, clipI]
+    split_ifs <;> rfl
+
+theorem truthy_zero : truthy (⟨0,0⟩ : Dual) = false := by
+  simp only [truthy, Bool.not_eq_false']
+  rw [NumDual.isZero_eq]
+
+theorem localize_merid (zv y z M N i o : Dual) :
+    Cs.localize ⟨⟨0,0⟩, ⟨0,0⟩, zv, ⟨0,0⟩, ⟨0,0⟩, ⟨0,0⟩⟩ (⟨⟨0,0⟩, y, z, ⟨0,0⟩, M, N, i, o⟩ : Ray Dual) = (⟨⟨0,0⟩, y, z +ᵈ -ᵈ zv, ⟨0,0⟩, M, N, i, o⟩ : Ray Dual) := by
+  simp only [Cs.localize, truthy_zero, Bool.false_eq_true, if_false, Ray.translate, d_neg_zero,
+    d_add_zero]
+
+theorem globalize_merid (zv y z M N i o : Dual) :
+    Cs.globalize ⟨⟨0,0⟩, ⟨0,0⟩, zv, ⟨0,0⟩, ⟨0,0⟩, ⟨0,0⟩⟩ (⟨⟨0,0⟩, y, z, ⟨0,0⟩, M, N, i, o⟩ : Ray Dual) = (⟨⟨0,0⟩, y, z +ᵈ zv, ⟨0,0⟩, M, N, i, o⟩ : Ray Dual) := by
+  simp only [Cs.globalize, truthy_zero, Bool.false_eq_true, if_false, Ray.translate, d_add_zero]
+
+/-- the surface of the 3-D model that `mstepSurf` restricts: vertex on the axis, no tilt, conic or
+plane geometry; absorption `k1`, aperture and coating are arbitrary (they act on the intensity) -/
+def toRSurf (sf : MSurf Dual) (k1 : Dual) (ap coat : Option (Dual × Dual)) : RSurf Dual :=
+  { kind := match sf.kind with | .object => .object | .image => .image | _ => .standard,
+    cs := ⟨⟨0,0⟩, ⟨0,0⟩, sf.z, ⟨0,0⟩, ⟨0,0⟩, ⟨0,0⟩⟩,
+    geom := match sf.kind with
+      | .conic => .standard sf.R sf.k | .conicMirror => .standard sf.R sf.k | _ => .plane,
+    n1 := sf.n1, n2 := sf.n2, k1 := k1,
+    refl := match sf.kind with | .conicMirror => true | .planeMirror => true | _ => false,
+    aperture := ap, coating := coat }
+
+theorem traceSurf_merid (sf : MSurf Dual) (k1 w : Dual) (ap coat : Option (Dual × Dual))
+    (r : MRay Dual) (i opd : Dual) :
+    ∃ i' opd', traceSurf (toRSurf sf k1 ap coat) w [ray3 r i opd] = [ray3 (mstepSurf sf r) i' opd'] := by
+  obtain ⟨kind, zv, k, R, n1, n2⟩ := sf
+  obtain ⟨y, z, M, N⟩ := r
+  cases kind
+  · exact ⟨i, opd, rfl⟩
+  all_goals
+    cases coat <;>
+    · simp only [ray3, traceSurf, toRSurf, List.map_cons, List.map_nil, localize_merid, Geom.distance,
+        stdDistance_merid, planeDistance, NumDual.zero_eq, List.zip_cons_cons, List.zip_nil_right, propagate_merid,
+        clip_merid, interact, Geom.normal, stdNormal_merid, refract_merid, reflect_merid,
+        Bool.false_eq_true, if_false, if_true, globalize_merid, NumDual.zero_eq,
+        mstepSurf, mstepLocal, mstep, mstepMirror, mstepPlane, mstepPlaneMirror, mstepImage]
+      exact ⟨_, _, rfl⟩
+
+/-- the records of `traceLens` on one meridional ray are the records of `mtrace` -/
+theorem traceLens_merid (w : Dual) (ss : List (MSurf Dual)) (rs : List (RSurf Dual))
+    (h : List.Forall₂ (fun S sf => ∃ k1 ap coat, S = toRSurf sf k1 ap coat) rs ss) :
+    ∀ (r : MRay Dual) (i opd : Dual),
+    List.Forall₂ (fun rec r' => ∃ i' opd', rec = [ray3 r' i' opd'])
+      (traceLens w rs [ray3 r i opd]) (mtrace r ss) := by
+  induction h with
+  | nil => intro r i opd; exact List.Forall₂.nil
+  | cons hS _ ih =>
+    intro r i opd
+    obtain ⟨k1, ap, coat, rfl⟩ := hS
+    obtain ⟨i', opd', e⟩ := traceSurf_merid _ k1 w ap coat r i opd
+    simp only [traceLens, mtrace]
+    rw [e]
+    exact List.Forall₂.cons ⟨i', opd', rfl⟩ (ih _ _ _)
+
+theorem forall2_comp {α β γ : Type} {R : α → β → Prop} {Q : β → γ → Prop} {P : α → γ → Prop}
+    (hP : ∀ a b c, R a b → Q b c → P a c) :
+    ∀ {l1 : List α} {l2 : List β} {l3 : List γ}, List.Forall₂ R l1 l2 → List.Forall₂ Q l2 l3 →
+      List.Forall₂ P l1 l3 := by
+  intro l1 l2 l3 h1
+  induction h1 generalizing l3 with
+  | nil => intro h2; cases h2; exact List.Forall₂.nil
+  | cons hab _ ih =>
+    intro h2
+    cases h2 with
+    | cons hbc hrest => exact List.Forall₂.cons (hP _ _ _ hab hbc) (ih hrest)
+
+/-- what the driver command `jet` reports of a jet: the ε-coefficient of the slope `M/N` -/
+theorem JetOf.slope {r : MRay Dual} {p : PRay ℝ} (h : JetOf r p) : r.M /ᵈ r.N = ⟨0, p.u⟩ := by
+  obtain ⟨s, hs, _, _, hM, hN⟩ := h
+  rw [hM, hN]
+  rcases hs with rfl | rfl <;>
+    simp only [NumDual.div_eq, zero_div, mul_zero, sub_zero, mul_one, one_mul, div_one, neg_mul,
+      mul_neg, neg_neg]
+
+/-- **traceLens_jet**: the whole-lens theorem for the 3-D model itself.  For a rotationally
+symmetric lens of conic / plane refracting and reflecting surfaces (any absorption, apertures and
+coatings) the real tracer `traceLens`, evaluated over jets on the axial seed ray, records at
+every surface a ray that is still meridional and on the axis, and whose ε-coefficients of `y`
+and `M/N` are the paraxial trace `ptrace` — this is what the driver command `jet` computes over
+`DualF` and what the harness compares with finite differences of the Python tracer. -/
+theorem traceLens_jet (w : Dual) (ss : List (MSurf ℝ)) (rs : List (RSurf Dual))
+    (h : List.Forall₂ (fun S sf => ∃ k1 ap coat, S = toRSurf (liftS sf) k1 ap coat) rs ss)
+    (s : ℝ) (p : PRay ℝ) (hs : s = 1 ∨ s = -1) (ok : okList s p.z ss) (i opd : Dual) :
+    List.Forall₂ (fun rec q => ∃ r' i' opd', rec = [ray3 r' i' opd'] ∧ JetOf r' q ∧
+        r'.y = ⟨0, q.y⟩ ∧ r'.M /ᵈ r'.N = ⟨0, q.u⟩)
+      (traceLens w rs [ray3 (axial s p) i opd]) (ptrace p (ss.map toPSurf)) := by
+  have h' : List.Forall₂ (fun S sf => ∃ k1 ap coat, S = toRSurf sf k1 ap coat) rs (ss.map liftS) := by
+    rw [List.forall₂_map_right_iff]; exact h
+  refine forall2_comp (fun rec r' q hr hj => ?_)
+    (traceLens_merid w _ rs h' (axial s p) i opd) (mtrace_jet ss s p hs ok)
+  obtain ⟨i', opd', e⟩ := hr
+  have hy : r'.y = ⟨0, q.y⟩ := by obtain ⟨_, _, hy, _⟩ := hj; exact hy
+  exact ⟨r', i', opd', e, hj, hy, hj.slope⟩
+
+-- traceLens_jet: the example lens as 3-D surfaces with apertures and coatings
+example (w : Dual) :
+    List.Forall₂ (fun rec q => ∃ r' i' opd', rec = [ray3 r' i' opd'] ∧ JetOf r' q ∧
+        r'.y = ⟨0, q.y⟩ ∧ r'.M /ᵈ r'.N = ⟨0, q.u⟩)
+      (traceLens w (exLens.map fun sf => toRSurf (liftS sf) ⟨0,0⟩ (some (⟨30,0⟩, ⟨0,0⟩))
+          (some (⟨0.99,0⟩, ⟨0.01,0⟩))) [ray3 (axial 1 ⟨12.5, 0, -10⟩) ⟨1,0⟩ ⟨0,0⟩])
+      (ptrace ⟨12.5, 0, -10⟩ (exLens.map toPSurf)) :=
+  traceLens_jet w exLens _
+    (by rw [List.forall₂_map_left_iff]; exact List.forall₂_same.2 (fun sf _ => ⟨_, _, _, rfl⟩))
+    1 _ (Or.inl rfl) exLens_ok _ _
+
+/-! ### the masked root: hyperboloids met from the concave side, for an arbitrary `Num.inf` -/
+
+/-- `Dual` with an arbitrary value `I` in place of the placeholder `Num.inf` -/
+@[reducible] noncomputable def dualInf (I : Dual) : Num Dual :=
+  { (inferInstance : Num Dual) with inf := I }
+
+theorem selectRoot_dualInf (I a b c z N : Dual) :
+    @selectRoot Dual (dualInf I) a b c z N =
+      (if Num.isZero a then -ᵈ c /ᵈ b else
+        if Num.le (Num.abs (z +ᵈ maskNeg ((-ᵈ b +ᵈ Num.sqrt (b *ᵈ b -ᵈ Num.ofRat 4 1 *ᵈ a *ᵈ c)) /ᵈ (twoᵈ *ᵈ a)) I *ᵈ N))
+            (Num.abs (z +ᵈ maskNeg ((-ᵈ b -ᵈ Num.sqrt (b *ᵈ b -ᵈ Num.ofRat 4 1 *ᵈ a *ᵈ c)) /ᵈ (twoᵈ *ᵈ a)) I *ᵈ N))
+        then maskNeg ((-ᵈ b +ᵈ Num.sqrt (b *ᵈ b -ᵈ Num.ofRat 4 1 *ᵈ a *ᵈ c)) /ᵈ (twoᵈ *ᵈ a)) I
+        else maskNeg ((-ᵈ b -ᵈ Num.sqrt (b *ᵈ b -ᵈ Num.ofRat 4 1 *ᵈ a *ᵈ c)) /ᵈ (twoᵈ *ᵈ a)) I) := rfl
+
+theorem mdist_dualInf (I k R : Dual) (r : MRay Dual) :
+    @mdist Dual (dualInf I) k R r =
+      @selectRoot Dual (dualInf I)
+        (k *ᵈ (r.N *ᵈ r.N) +ᵈ r.M *ᵈ r.M +ᵈ r.N *ᵈ r.N)
+        (twoᵈ *ᵈ k *ᵈ r.N *ᵈ r.z +ᵈ twoᵈ *ᵈ r.M *ᵈ r.y -ᵈ twoᵈ *ᵈ r.N *ᵈ R +ᵈ twoᵈ *ᵈ r.N *ᵈ r.z)
+        (k *ᵈ (r.z *ᵈ r.z) -ᵈ twoᵈ *ᵈ R *ᵈ r.z +ᵈ r.y *ᵈ r.y +ᵈ r.z *ᵈ r.z) r.z r.N := rfl
+
+theorem seed_abc (k R z0 y1 m1 s : ℝ) (hss : s * s = 1) :
+    ((⟨k,0⟩ : Dual) *ᵈ (⟨s,0⟩ *ᵈ ⟨s,0⟩) +ᵈ ⟨0,m1⟩ *ᵈ ⟨0,m1⟩ +ᵈ ⟨s,0⟩ *ᵈ ⟨s,0⟩ = ⟨k + 1, 0⟩) ∧
+    (twoᵈ *ᵈ ⟨k,0⟩ *ᵈ ⟨s,0⟩ *ᵈ ⟨z0,0⟩ +ᵈ twoᵈ *ᵈ ⟨0,m1⟩ *ᵈ ⟨0,y1⟩ -ᵈ twoᵈ *ᵈ ⟨s,0⟩ *ᵈ ⟨R,0⟩
+        +ᵈ twoᵈ *ᵈ ⟨s,0⟩ *ᵈ ⟨z0,0⟩ = (⟨s * (2 * (k + 1) * z0 - 2 * R), 0⟩ : Dual)) ∧
+    ((⟨k,0⟩ : Dual) *ᵈ (⟨z0,0⟩ *ᵈ ⟨z0,0⟩) -ᵈ twoᵈ *ᵈ ⟨R,0⟩ *ᵈ ⟨z0,0⟩ +ᵈ ⟨0,y1⟩ *ᵈ ⟨0,y1⟩ +ᵈ ⟨z0,0⟩ *ᵈ ⟨z0,0⟩
+        = ⟨(k + 1) * (z0 * z0) - 2 * R * z0, 0⟩) := by
+  refine ⟨?_, ?_, ?_⟩
+  · simp only [NumDual.add_eq, NumDual.mul_eq, mul_zero, zero_mul, add_zero, hss]
+    apply Dual.ext' <;> simp only [] <;> ring
+  · simp only [NumDual.add_eq, NumDual.sub_eq, NumDual.mul_eq, NumDual.two_eq, mul_zero, zero_mul,
+      add_zero, zero_add, sub_zero]
+    apply Dual.ext' <;> simp only [] <;> ring
+  · simp only [NumDual.add_eq, NumDual.sub_eq, NumDual.mul_eq, NumDual.two_eq, mul_zero, zero_mul,
+      add_zero, zero_add, sub_zero]
+    apply Dual.ext' <;> simp only [] <;> ring
+
+/-- **mdist_axis_anyinf**: the case that `mdist_axis` excludes — a hyperboloid (`1 + k < 0`) met
+from its concave side (`s R > 0`) by a ray starting between the two sheets
+(`s·2R/(1+k) < s z₀ ≤ 0`).  The far root is negative and is replaced by `np.inf`; the theorem is
+stated for the carrier `dualInf I`, i.e. for *every* value `I` of that placeholder except the
+coincidence `z₀ + I s = 0` (which would put the masked root on the vertex plane): the vertex root
+is selected.  For the IEEE carrier `I = +∞`; for the standard instance of this file `I = 0 + 0ε`
+and the condition reads `z₀ ≠ 0`.  No other function of the meridional step reads `Num.inf`. -/
+theorem mdist_axis_anyinf (I : Dual) (k R z0 y1 m1 s : ℝ) (hs : s = 1 ∨ s = -1)
+    (hk : 1 + k < 0) (hsR : 0 < s * R) (hz : s * z0 ≤ 0) (hin : s * (2 * R / (1 + k)) < s * z0)
+    (hI : z0 + I.v * s ≠ 0) :
+    @mdist Dual (dualInf I) ⟨k,0⟩ ⟨R,0⟩ ⟨⟨0,y1⟩, ⟨z0,0⟩, ⟨0,m1⟩, ⟨s,0⟩⟩ = ⟨-z0 * s, 0⟩ := by
+  have hss : s * s = 1 := by rcases hs with rfl | rfl <;> norm_num
+  have hk' : k + 1 ≠ 0 := by linarith
+  obtain ⟨ea, eb, ec⟩ := seed_abc k R z0 y1 m1 s hss
+  rw [mdist_dualInf]
+  simp only []
+  rw [ea, eb, ec, selectRoot_dualInf]
+  have hd : (s * (2 * (k + 1) * z0 - 2 * R)) * (s * (2 * (k + 1) * z0 - 2 * R))
+      - 4 * (k + 1) * ((k + 1) * (z0 * z0) - 2 * R * z0) = (2 * (s * R)) ^ 2 := by
+    linear_combination ((2 * (k + 1) * z0 - 2 * R)^2 - 4 * R^2) * hss
+  have hS : Real.sqrt ((s * (2 * (k + 1) * z0 - 2 * R)) * (s * (2 * (k + 1) * z0 - 2 * R))
+      - 4 * (k + 1) * ((k + 1) * (z0 * z0) - 2 * R * z0)) = 2 * (s * R) := by
+    rw [hd, Real.sqrt_sq_eq_abs, abs_of_pos (by linarith)]
+  have T1 := root_plus (k + 1) (s * (2 * (k + 1) * z0 - 2 * R)) ((k + 1) * (z0 * z0) - 2 * R * z0)
+  have T2 := root_minus (k + 1) (s * (2 * (k + 1) * z0 - 2 * R)) ((k + 1) * (z0 * z0) - 2 * R * z0)
+  rw [hS] at T1 T2
+  have e1 : (-(s * (2 * (k + 1) * z0 - 2 * R)) + 2 * (s * R)) / (2 * (k + 1))
+      = s * (2 * R / (k + 1)) - s * z0 := by
+    field_simp; ring
+  have e2 : (-(s * (2 * (k + 1) * z0 - 2 * R)) - 2 * (s * R)) / (2 * (k + 1)) = -z0 * s := by
+    field_simp; ring
+  rw [e1] at T1
+  rw [e2] at T2
+  rw [T1, T2]
+  have m1' : maskNeg (⟨s * (2 * R / (k + 1)) - s * z0, 0⟩ : Dual) I = I := by
+    unfold maskNeg
+    rw [if_pos]
+    rw [NumDual.lt_eq]
+    show s * (2 * R / (k + 1)) - s * z0 < 0
+    rw [add_comm 1 k] at hin; linarith
+  have m2' : maskNeg (⟨-z0 * s, 0⟩ : Dual) I = ⟨-z0 * s, 0⟩ := by
+    apply maskNeg_keep
+    show ¬ (-z0 * s < 0)
+    linarith
+  rw [m1', m2', if_neg (by rw [NumDual.isZero_eq]; exact hk'), if_neg]
+  rw [NumDual.le_eq, NumDual.abs_eq, NumDual.abs_eq]
+  show ¬ (|z0 + I.v * s| ≤ |z0 + -z0 * s * s|)
+  have : z0 + -z0 * s * s = 0 := by linear_combination (-z0) * hss
+  rw [this, abs_zero]
+  intro h
+  exact hI (abs_eq_zero.mp (le_antisymm h (abs_nonneg _)))
+
+example : ((1:ℝ) = 1 ∨ (1:ℝ) = -1) ∧ (1:ℝ) + (-2) < 0 ∧ (0:ℝ) < 1 * 50 ∧ (1:ℝ) * (-10) ≤ 0 ∧
+    (1:ℝ) * (2 * 50 / (1 + (-2))) < 1 * (-10) ∧ (-10:ℝ) + (0:ℝ) * 1 ≠ 0 := by norm_num
+end C05
